@@ -57,7 +57,7 @@ type CallSpec struct {
 	K    int    `json:"k"`
 	Kind string `json:"kind"`
 	Cap  int    `json:"cap"`
-	Ctx  string `json:"ctx,omitempty"` // "done": the call is issued with a context that has already ended
+	Ctx  string `json:"ctx,omitempty"` // "done": the call is issued with a context that has already ended; "gate": see op behind
 }
 
 type FrameSpec struct {
@@ -73,7 +73,7 @@ type FrameSpec struct {
 }
 
 type Step struct {
-	Op     string      `json:"op"` // calls | frames | break | peerclose | cancel | early | queued | midsend
+	Op     string      `json:"op"` // calls | frames | break | peerclose | cancel | early | queued | midsend | behind
 	Calls  []CallSpec  `json:"calls,omitempty"`
 	Frames []FrameSpec `json:"frames,omitempty"`
 	K      int         `json:"k,omitempty"`
@@ -115,6 +115,7 @@ type CallerObs struct {
 	Fields    []rpcx.Field `json:"fields,omitempty"`
 	Cancelled bool         `json:"cancelled,omitempty"`
 	Late      bool         `json:"late,omitempty"`
+	RejectedButSent bool   `json:"rejected_but_sent,omitempty"` // completed with errAlreadyShutdown by serve, and its request reached the peer all the same
 	When      string       `json:"when,omitempty"` // where the call was when its context ended: issue | queued | midsend | pending
 }
 
@@ -126,6 +127,7 @@ type Case struct {
 	Frames  []SentFrame `json:"frames"`
 	Callers []CallerObs `json:"callers"`
 	Exited  bool        `json:"exited"`
+	Stress  map[string]int `json:"stress,omitempty"` // stream stress: how the calls ended, by error kind
 	Hang    string      `json:"hang,omitempty"`
 	Crash   string      `json:"crash,omitempty"`
 }
@@ -454,6 +456,22 @@ func (g *genState) midsend() {
 	g.abandoned = append(g.abandoned, cs[0].K)
 }
 
+// behind: k calls that passed the shutdown check queue up behind the
+// shutdown request; the peer then answers the shutdown (or not).
+func (g *genState) behind(k int) {
+	kinds := []string{"hello", "hello", "read", "write", "close"}
+	var cs []CallSpec
+	for j := 0; j < k; j++ {
+		c := g.newCalls(1, kinds[g.r.Intn(len(kinds))])[0]
+		c.Ctx = "gate"
+		cs = append(cs, c)
+	}
+	sd := g.newCalls(1, "shutdown")
+	g.steps = append(g.steps, Step{Op: "behind", Calls: append(cs, sd...)})
+	g.pending = append(g.pending, sd[0].K)
+	g.sig = true
+}
+
 // ctxRound: one round of a history about contexts that end.
 func (g *genState) ctxRound() {
 	r := g.r
@@ -545,6 +563,17 @@ func genHistory(seed uint64, i int) Case {
 		g.answerAll(false, false)
 		c.Steps = g.steps
 		return c
+	case 11, 12: // calls queued behind the shutdown request; the peer answers the shutdown (11) or goes away (12)
+		c.Stream = "behind"
+		g.calls(2, "hello")
+		g.behind(5)
+		if i == 11 {
+			sk := g.takePending(len(g.pending) - 1)
+			g.frames([]FrameSpec{{Kind: "good", To: sk, Fields: []rpcx.Field{}}})
+			g.dead = true
+		}
+		c.Steps = g.steps
+		return c
 	case 9: // the first call of the transport is held by the peer while 32 calls are issued with a finished context
 		c.Stream = "ctx"
 		g.calls(1, "hello")
@@ -604,7 +633,7 @@ func genHistory(seed uint64, i int) Case {
 		return c
 	}
 	streams := []string{"perm", "perm", "perm", "bad", "bad", "bad", "sendfail", "errbyte",
-		"shutdown", "hint", "peerclose", "cancel", "mixed", "mixed", "garbage", "early", "alias", "ctx", "ctx"}
+		"shutdown", "hint", "peerclose", "cancel", "mixed", "mixed", "garbage", "early", "alias", "ctx", "ctx", "behind"}
 	c.Stream = streams[r.Intn(len(streams))]
 	if i%97 == 20 { // a few long histories with an old call answered late
 		c.Stream = "held"
@@ -613,6 +642,27 @@ func genHistory(seed uint64, i int) Case {
 		return c
 	}
 	rounds := 1 + r.Intn(3)
+	if c.Stream == "behind" {
+		g.calls(r.Intn(4), "")
+		if len(g.pending) > 0 && r.Bool() {
+			g.frames([]FrameSpec{g.good(g.takePending(r.Intn(len(g.pending))))})
+		}
+		g.behind(1 + r.Intn(8))
+		sk := g.pending[len(g.pending)-1]
+		switch r.Intn(3) {
+		case 0: // the peer answers what is outstanding, the shutdown last
+			g.pending = g.pending[:len(g.pending)-1]
+			g.answerAll(false, false)
+			g.frames([]FrameSpec{{Kind: "good", To: sk, Fields: []rpcx.Field{}}})
+			g.dead = true
+		case 1:
+			g.pending = g.pending[:len(g.pending)-1]
+			g.frames([]FrameSpec{{Kind: "good", To: sk, Fields: []rpcx.Field{}}})
+			g.dead = true
+		}
+		c.Steps = g.steps
+		return c
+	}
 	if c.Stream == "ctx" {
 		// older calls -- among them, mostly, the first call of the transport --
 		// stay outstanding while the contexts of younger ones end
@@ -790,6 +840,7 @@ type caller struct {
 	refused   bool
 	internal  bool
 	when      string // where the call was when its context ended
+	rejectedButSent bool // serve completed the call with errAlreadyShutdown and sent it all the same
 }
 
 type runner struct {
@@ -827,10 +878,17 @@ func le64(v uint64) []byte {
 
 func (rn *runner) event(e Event) { rn.c.Events = append(rn.c.Events, e) }
 
-func (rn *runner) startCaller(cs CallSpec) {
+func (rn *runner) startCaller(cs CallSpec) { rn.startCallerCtx(cs, nil) }
+
+// startCallerCtx starts the call under the given context (nil: a fresh
+// cancellable one).
+func (rn *runner) startCallerCtx(cs CallSpec, use context.Context) {
 	ctx, cancel := context.WithCancel(context.Background())
 	if cs.Ctx == "done" {
 		cancel()
+	}
+	if use != nil {
+		ctx = use
 	}
 	cr := &caller{spec: cs, cancel: cancel}
 	rn.callers[cs.K] = cr
@@ -937,6 +995,96 @@ func (rn *runner) gotResult(r callRes) {
 	cr := rn.callers[r.k]
 	rr := r
 	cr.res = &rr
+}
+
+// gateCtx is a context whose first Done() call -- the one asyncCall makes
+// after it has checked the shutdown signal and before it puts the exchange
+// into the queue -- reports its arrival and waits until the gate is opened.
+type gateCtx struct {
+	context.Context
+	once    sync.Once
+	arrived chan struct{}
+	gate    chan struct{}
+}
+
+func (g *gateCtx) Done() <-chan struct{} {
+	g.once.Do(func() {
+		close(g.arrived)
+		<-g.gate
+	})
+	return g.Context.Done()
+}
+
+// doBehind forces "a call reaches the queue BEHIND the shutdown request
+// although it passed the shutdown check before the signal was closed": the
+// calls of the step stop between asyncCall's check and its enqueue, the
+// step's shutdown call (the last one) is issued and reaches the peer, the
+// gates are opened.  serve takes the calls with shutdownCalled set: each is
+// completed with errAlreadyShutdown, once, and is neither sent nor recorded.
+func (rn *runner) doBehind(st Step) bool {
+	n := len(st.Calls) - 1
+	if n < 1 || rn.exited() || rn.sig || st.Calls[n].Kind != "shutdown" {
+		return rn.doCalls(st.Calls)
+	}
+	gate := make(chan struct{})
+	var gated []*gateCtx
+	for _, c := range st.Calls[:n] {
+		g := &gateCtx{Context: context.Background(), arrived: make(chan struct{}), gate: gate}
+		gated = append(gated, g)
+		rn.startCallerCtx(c, g)
+	}
+	for _, g := range gated {
+		select {
+		case <-g.arrived:
+		case <-time.After(waitBound):
+			rn.c.Hang = "behind: a call did not reach asyncCall's select"
+			close(gate)
+			return false
+		}
+	}
+	if !rn.doCalls(st.Calls[n:]) { // the shutdown request: closes the signal, is taken, reaches the peer
+		close(gate)
+		return false
+	}
+	close(gate)
+	// every gated call returns: refused by serve
+	want := map[int]bool{}
+	for _, c := range st.Calls[:n] {
+		want[c.K] = true
+	}
+	timeout := time.After(waitBound)
+	for len(want) > 0 {
+		select {
+		case data, ok := <-rn.reqs:
+			if !ok {
+				rn.reqs = nil
+				continue
+			}
+			// a rejected call must not reach the peer
+			id, typ, k, ok2 := rn.identify(data, want)
+			if ok2 && rn.callers[k] != nil {
+				rn.sawRequest(id, typ, k)
+				rn.callers[k].rejectedButSent = true
+				continue
+			}
+			rn.c.Hang = fmt.Sprintf("unidentified request id=%d typ=%d", id, typ)
+			return false
+		case r := <-rn.results:
+			rn.gotResult(r)
+			if !want[r.k] {
+				continue
+			}
+			delete(want, r.k)
+			if r.kind == "alreadyshutdown" {
+				rn.callers[r.k].refused = true
+				rn.event(Event{E: "refused", K: r.k})
+			}
+		case <-timeout:
+			rn.c.Hang = "behind: a call queued behind the shutdown request did not return"
+			return false
+		}
+	}
+	return true
 }
 
 // strayRequest records the request of a caller that has already returned
@@ -1618,6 +1766,8 @@ func (rn *runner) run() {
 			ok = rn.doQueued(st)
 		case "midsend":
 			ok = rn.doMidsend(st)
+		case "behind":
+			ok = rn.doBehind(st)
 		case "break":
 			rn.cl.BreakWrites()
 		case "peerclose":
@@ -1716,7 +1866,8 @@ func (rn *runner) run() {
 			rn.event(Event{E: "refused", K: k})
 		}
 		o := CallerObs{K: k, Kind: cr.spec.Kind, Typ: kinds[cr.spec.Kind].typ, Sent: cr.seen,
-			Res: cr.res.kind, Fields: cr.res.fields, Cancelled: cr.cancelled, Late: cr.late, When: cr.when}
+			Res: cr.res.kind, Fields: cr.res.fields, Cancelled: cr.cancelled, Late: cr.late, When: cr.when,
+			RejectedButSent: cr.rejectedButSent}
 		if cr.seen {
 			o.ID = strconv.FormatUint(cr.id, 10)
 		}
@@ -1724,7 +1875,83 @@ func (rn *runner) run() {
 	}
 }
 
+// runStress: 64 goroutines call Hello in a loop against a peer that answers
+// everything, while the transport is shut down under them (150 rounds).  Every
+// call returns -- its reply, errAlreadyShutdown, or the end of the transport
+// -- and the process survives (a call completed twice closes a closed
+// channel).
+func runStress(c *Case) {
+	c.Events, c.Frames, c.Callers = []Event{}, []SentFrame{}, []CallerObs{}
+	c.Stress = map[string]int{}
+	var mu sync.Mutex
+	for round := 0; round < 150 && c.Hang == ""; round++ {
+		pair, err := rpcx.NewWSPair()
+		if err != nil {
+			c.Crash = "setup: " + err.Error()
+			return
+		}
+		cl := sniproxy.VerifNewClient(pair.A, nil)
+		go func() { // the peer: echoes hellos, acknowledges the shutdown
+			for {
+				mt, data, err := pair.B.ReadMessage()
+				if err != nil {
+					return
+				}
+				if mt != websocket.BinaryMessage || len(data) < 9 {
+					continue
+				}
+				id := binary.LittleEndian.Uint64(data)
+				switch data[8] {
+				case 1:
+					b, _ := sniproxy.VerifEncodeReply(id, 1, 0, "helloResponse",
+						rpcx.ToShim([]rpcx.Field{{K: "bytes", B: rpcx.SegsOf([]byte("ok"))}}))
+					pair.B.WriteMessage(websocket.BinaryMessage, b)
+				case 0:
+					b, _ := sniproxy.VerifEncodeReply(id, 0, 0, "", nil)
+					pair.B.WriteMessage(websocket.BinaryMessage, b)
+				}
+			}
+		}()
+		var wg sync.WaitGroup
+		for g := 0; g < 64; g++ {
+			wg.Add(1)
+			go func() {
+				defer wg.Done()
+				for n := 0; n < 100000; n++ {
+					ctx, cancel := context.WithTimeout(context.Background(), waitBound)
+					_, err := cl.Hello(ctx, "x")
+					cancel()
+					k := sniproxy.VerifCallErrKind(err)
+					mu.Lock()
+					c.Stress[k]++
+					mu.Unlock()
+					if err != nil {
+						return
+					}
+				}
+			}()
+		}
+		time.Sleep(time.Duration(1+round%5) * time.Millisecond)
+		ctx, cancel := context.WithTimeout(context.Background(), 3*time.Second)
+		cl.Shutdown(ctx)
+		cancel()
+		done := make(chan struct{})
+		go func() { wg.Wait(); close(done) }()
+		select {
+		case <-done:
+		case <-time.After(2 * waitBound):
+			c.Hang = "stress: callers did not return after the shutdown"
+		}
+		pair.Close()
+	}
+	c.Exited = true
+}
+
 func runHistory(c *Case, tap *rpcx.LogTap) {
+	if c.Stream == "stress" {
+		runStress(c)
+		return
+	}
 	tap.Reset()
 	rn := &runner{c: c, tap: tap, results: make(chan callRes, 4096),
 		callers: map[int]*caller{}, pending: map[uint64]int{}, stray: map[int]bool{}}
@@ -1751,6 +1978,7 @@ func loadScript(path string) []Case {
 func main() {
 	seed := flag.Uint64("seed", 1, "seed")
 	n := flag.Int("n", 300, "number of histories")
+	nstress := flag.Int("stress", 0, "number of stress cases (Hello x 64 against a shutdown, 150 rounds each) after the histories")
 	script := flag.String("script", "", "JSON file with a list of cases (stream, steps) to run instead")
 	child := flag.Bool("child", false, "child mode")
 	from := flag.Int("from", 0, "first case (child)")
@@ -1760,11 +1988,16 @@ func main() {
 	var scripted []Case
 	if *script != "" {
 		scripted = loadScript(*script)
-		*n = len(scripted)
+		*n, *nstress = len(scripted), 0
 	}
+	nhist := *n
+	*n += *nstress
 	gen := func(i int) Case {
 		if scripted != nil {
 			return Case{I: i, Stream: scripted[i].Stream, Steps: scripted[i].Steps}
+		}
+		if i >= nhist {
+			return Case{I: i, Stream: "stress", Steps: []Step{}}
 		}
 		return genHistory(*seed, i)
 	}
@@ -1779,7 +2012,7 @@ func main() {
 		}
 		return
 	}
-	args := []string{"-seed", strconv.FormatUint(*seed, 10), "-n", strconv.Itoa(*n)}
+	args := []string{"-seed", strconv.FormatUint(*seed, 10), "-n", strconv.Itoa(nhist), "-stress", strconv.Itoa(*nstress)}
 	if *script != "" {
 		args = append(args, "-script", *script)
 	}
